@@ -51,8 +51,11 @@ Theorem C09_diff_self_empty : forall dt1 dt2, valid_dt dt1 = true -> valid_dt dt
 Proof. exact diff_self_empty. Qed.
 Print Assumptions C09_diff_self_empty.
 
-(* the law on the operands as given: a date dt2 stays a date unless the difference carries time;
-   dates and datetimes are compared after midnight promotion *)
+(* the law on the operands as given: a date dt2 stays a date unless the difference carries time.
+   READING of "equals dt1 exactly" for MIXED date/datetime pairs: equality after promoting a date to
+   the datetime at its midnight (`promote`).  Literally a Python datetime never == a date, so the
+   text cannot be meant field-for-field there; for operands of one kind `promote` changes nothing and
+   the equality is literal (C09_diff_inverse).  check_C09.py compares with the same reading. *)
 Theorem C09_diff_inverse_uncoerced : forall dt1 dt2, valid_dt dt1 = true -> valid_dt dt2 = true ->
   exists d r, mk_diff dt1 dt2 = Ok d /\ add_dt d dt2 = Ok r /\ promote r = promote dt1.
 Proof. exact diff_inverse_uncoerced. Qed.
@@ -105,6 +108,22 @@ Theorem C09_aware_distinct_local :
   mk_diff_aware off dt1 dt2 = mk_diff dt1 dt2.
 Proof. exact mk_diff_aware_local. Qed.
 Print Assumptions C09_aware_distinct_local.
+
+(* THE GUARD = the complement of finding F-C09-distinct-tzinfo's matcher: whenever the utcoffset at
+   dt1 equals the utcoffset at dt2 shifted by the result's years/months (the value the residual is
+   taken from), dt2 + relativedelta(dt1, dt2) = dt1 also for distinct tzinfo objects -- nothing is
+   assumed about the offsets at dt2 or at the other month shifts the loop visits.  (The matcher in
+   check_C09.py excuses an inverse-law failure only when these two offsets differ.) *)
+Theorem C09_aware_distinct_inverse :
+  forall off f y1 m1 d1 hh1 mi1 ss1 us1 y2 m2 d2 hh2 mi2 ss2 us2 d,
+  let dt1 := PDT y1 m1 d1 hh1 mi1 ss1 us1 in
+  let dt2 := PDT y2 m2 d2 hh2 mi2 ss2 us2 in
+  valid_dt dt1 = true -> valid_dt dt2 = true ->
+  mk_diff_aware off dt1 dt2 = Ok d ->
+  off (lin dt1) = Some f -> off (lin (shifted dt2 (rel_months (rel d)))) = Some f ->
+  add_dt d dt2 = Ok dt1.
+Proof. exact mk_diff_aware_inverse. Qed.
+Print Assumptions C09_aware_distinct_inverse.
 
 (* ======== model <-> code tie by TRANSLATION: gen/RdAddGen.v is regenerated from
    /repo/src/dateutil/relativedelta.py on every run by harness/gen_rd_add.py (fail-closed Python-ast
